@@ -39,7 +39,13 @@ const (
 	slRunBound   = 120 * time.Second // a run that is not over by then is dumped as it stands (an observation)
 	slChildBound = 300 * time.Second // the parent kills a child that did not even dump (machinery failure)
 	slProbeGrace = 100 * time.Millisecond
-	slMaxFailing = 3 // failing runs after which the stream stops: the verdict is settled
+	// probe 3: the request time-out in force while a registration is pending, and how long the block is
+	// held meanwhile (more than 3x the time-out).  No request of the unchanged runtime ever runs under the short time-out
+	// (it is set from inside the plugin's Configure handler and reset before the block is released).
+	slShortTimeout = 300 * time.Millisecond
+	slLongHold     = 1000 * time.Millisecond
+	slLongTimeout  = 60 * time.Second
+	slMaxFailing   = 3 // failing runs after which the stream stops: the verdict is settled
 )
 
 // what the parent asks of one run
@@ -51,7 +57,7 @@ type slSpec struct {
 	Starts   []int       `json:"starts"`
 	Modes    []string    `json:"modes"`    // per plugin: ok | syncerr (its Synchronize handler fails) | syncdrop (it disconnects during synchronisation)
 	DblSeed  int64       `json:"dbl_seed"` // PRNG of the choice which blocks are released twice, and how
-	Probe    int         `json:"probe"`    // 0 none, 1 two blocks held / one released twice, 2 released, ANOTHER block taken, released again
+	Probe    int         `json:"probe"`    // 0 none, 1 two blocks held / one released twice, 2 released, ANOTHER block taken, released again, 3 a block held for a multiple of the request time-out with a registration pending
 	Restarts []slRestart `json:"restarts"` // after the stream: plugins that stop and register again under the same name
 }
 
@@ -94,8 +100,9 @@ type slPlugin struct {
 	stub     stub.Stub
 	cur      *slSession
 	sessions []*slSession
-	closes   int32 // connection-closed notifications of the stub
-	stops    int32 // disconnections the harness (or the plugin's own script) caused
+	onConfig func() // run once inside the Configure handler (probe 3)
+	closes   int32  // connection-closed notifications of the stub
+	stops    int32  // disconnections the harness (or the plugin's own script) caused
 }
 
 type slRun struct {
@@ -104,11 +111,12 @@ type slRun struct {
 	out     string
 	plugins []*slPlugin
 
-	mu    sync.Mutex // protects log, store, every plugin's records: one linearisation
-	log   []logEv
-	store []string
-	sess  int
-	viol  []string
+	mu     sync.Mutex // protects log, store, every plugin's records: one linearisation
+	log    []logEv
+	store  []string
+	sess   int
+	sessOK map[int]bool // SyncFn invocations that returned nil
+	viol   []string
 
 	// held: sync blocks currently held = between the "acquired" log entry and the "released" log entry
 	// of the block's FIRST Unblock.  A repeated Unblock of a released block does not touch it.
@@ -185,6 +193,10 @@ func (r *slRun) syncFn(ctx context.Context, cb adaptation.SyncCB) error {
 	}
 	r.mu.Lock()
 	r.appendLocked(logEv{Kind: "sret", sess: k, OK: err == nil})
+	if r.sessOK == nil {
+		r.sessOK = map[int]bool{}
+	}
+	r.sessOK[k] = err == nil
 	r.mu.Unlock()
 	atomic.AddInt32(&r.inSync, -1)
 	atomic.AddInt32(&r.rets, 1)
@@ -237,6 +249,18 @@ func (p *slPlugin) CreateContainer(_ context.Context, _ *api.PodSandbox, c *api.
 	r.appendLocked(logEv{Kind: "recv", G: g, P: s.inst, C: c.Id})
 	r.mu.Unlock()
 	return nil, nil, nil
+}
+
+// Configure: subscribe to everything the plugin handles (mask 0).
+func (p *slPlugin) Configure(context.Context, string, string, string) (api.EventMask, error) {
+	p.run.mu.Lock()
+	f := p.onConfig
+	p.onConfig = nil
+	p.run.mu.Unlock()
+	if f != nil {
+		f()
+	}
+	return 0, nil
 }
 
 // noise: requests outside any sync block keep the adaptation mutex busy
@@ -444,6 +468,28 @@ func (r *slRun) probeInterleaved(startPlugin func(j int) chan error) (pending ch
 	return pending
 }
 
+// probe 3: a block is held, a plugin connects; from the moment it is configured (set inside its own
+// Configure handler, i.e. before the runtime goes on to request the exclusive section) the plugin
+// request time-out is short; the block stays held for more than three times that; the time-out is long
+// again BEFORE the block is released.  How long a registration was pending must not matter: after the
+// release the plugin is synchronised and active (judged at the end of the run: must-be-registered,
+// exactly-once).  On the unchanged runtime no request ever runs under the short time-out.
+func (r *slRun) probeHeldLong(startPlugin func(j int) chan error) (pending chan error) {
+	bh := r.acquire("gh")
+	r.mu.Lock()
+	r.plugins[0].onConfig = func() { adaptation.SetPluginRequestTimeout(slShortTimeout) }
+	r.mu.Unlock()
+	pending = r.waitConfigured(startPlugin(0))
+	for t0 := time.Now(); time.Since(t0) < slLongHold; time.Sleep(time.Millisecond) {
+		r.parkIfAbandoned()
+	}
+	adaptation.SetPluginRequestTimeout(slLongTimeout)
+	r.create("gh", "gh-c0")
+	r.keep("gh", "gh-c0")
+	r.release("gh", bh)
+	return pending
+}
+
 // buildCase: call with r.mu held.
 func (r *slRun) buildCase(abandoned bool) *slCase {
 	// resolve sync sessions to plugin instances through what the plugins received
@@ -641,8 +687,11 @@ func oneSyncLockRun(spec slSpec, out string) (*slCase, error) {
 		first = 1
 		expected++
 		probe := r.probeHeldTogether
-		if spec.Probe == 2 {
+		switch spec.Probe {
+		case 2:
 			probe = r.probeInterleaved
+		case 3:
+			probe = r.probeHeldLong
 		}
 		if pending := probe(startPlugin); pending != nil {
 			pwg.Add(1)
@@ -712,6 +761,12 @@ func oneSyncLockRun(spec slSpec, out string) (*slCase, error) {
 	// plugins that disconnect and register again under the same index and name, the runtime being quiet
 	for n, rs := range spec.Restarts {
 		p := r.plugins[rs.Plugin]
+		r.mu.Lock()
+		synced := r.sessOK[p.cur.sess]
+		r.mu.Unlock()
+		if !synced {
+			continue // the runtime refused to register it (judged at the end): nothing to disconnect
+		}
 		before := atomic.LoadInt32(&p.closes)
 		atomic.AddInt32(&p.stops, 1)
 		p.stub.Stop()
@@ -743,18 +798,24 @@ func oneSyncLockRun(spec slSpec, out string) (*slCase, error) {
 	for i := 0; i < 2; i++ {
 		r.createInBlock("gt", "gt-c"+strconv.Itoa(i), i)
 	}
-	for _, p := range r.plugins {
-		if p.mode == "ok" && atomic.LoadInt32(&p.closes) != atomic.LoadInt32(&p.stops) {
-			r.herr.Store(fmt.Errorf("plugin %s lost its connection during the run", p.name))
-		}
-	}
 	r.parkIfAbandoned()
-	if e := r.herr.Load(); e != nil {
-		return nil, e.(error)
-	}
 	r.mu.Lock()
 	cs := r.buildCase(false)
 	r.mu.Unlock()
+	// a healthy plugin whose connection went away: machinery — unless the runtime itself refused to register it
+	// (its handler succeeded, the runtime reports the synchronisation failed and closes it): that is judged
+	reg := map[string]bool{}
+	for _, po := range cs.Plugins {
+		reg[po.Name] = po.Registered
+	}
+	for _, p := range r.plugins {
+		if p.mode == "ok" && atomic.LoadInt32(&p.closes) != atomic.LoadInt32(&p.stops) && reg[p.cur.inst] {
+			r.herr.Store(fmt.Errorf("plugin %s lost its connection during the run", p.name))
+		}
+	}
+	if e := r.herr.Load(); e != nil {
+		return nil, e.(error)
+	}
 	for _, p := range r.plugins {
 		p.stub.Stop()
 	}
@@ -777,7 +838,7 @@ func syncLockHelper(args []string) int {
 		return 2
 	}
 	adaptation.SetPluginRegistrationTimeout(60 * time.Second)
-	adaptation.SetPluginRequestTimeout(60 * time.Second)
+	adaptation.SetPluginRequestTimeout(slLongTimeout)
 	cs, err := oneSyncLockRun(spec, args[1])
 	res := &slResult{Case: cs}
 	if err != nil {
@@ -929,6 +990,9 @@ func driveSyncLock(c *hx.Ctx) error {
 		case i == 1 || x == 1:
 			probe = 2
 		}
+		if i == 4 || (i > 4 && rnd.Intn(c.Pick(40, 25)) == 0) { // one second each: the fifth run, and now and then
+			probe = 3
+		}
 		var restarts []slRestart
 		switch x := rnd.Intn(6); {
 		case i == 1 || x < 2:
@@ -1008,7 +1072,7 @@ func driveSyncLock(c *hx.Ctx) error {
 		if overlapped == 0 {
 			c.HarnessError("synclock: no plugin registered while containers were being created")
 		}
-		if twiceOther == 0 || twiceLate == 0 || probes[1] == 0 || probes[2] == 0 {
+		if twiceOther == 0 || twiceLate == 0 || probes[1] == 0 || probes[2] == 0 || probes[3] == 0 {
 			c.HarnessError("synclock: blocks released twice while another block was held: %d, after another goroutine acquired: %d, probes: %v", twiceOther, twiceLate, probes)
 		}
 		if syncFails < 2 {
@@ -1020,6 +1084,6 @@ func driveSyncLock(c *hx.Ctx) error {
 	} else {
 		c.Count("synclock.failing_runs", failing)
 	}
-	c.Stats.Rule = "synclock: every run in a child process (a runtime that dies inside its sync lock is an observation): R goroutines x N CreateContainer requests inside BlockPluginSync/Unblock on one real Adaptation while P real stubs register at PRNG-chosen points of the creation stream (every 8th run: all at once) and a noise goroutine fires StartContainer outside any block; about 20% of the plugins other than the first FAIL their synchronisation (handler error, or the plugin disconnects during it) and the others must still be registered and blocks obtainable; about 45% of the blocks are released TWICE (explicit Unblock plus a deferred one, the use the doc comment allows), a third of those only after another goroutine has acquired a block; the held-block counter and the log count a block as released at its first Unblock only; half of the runs start with a probe (1: two blocks held, a plugin waiting, the first released twice while the second is between relaying its creation and its bookkeeping; 2: the first block released, THEN a second one taken, a plugin waiting, then the first one's stale second Unblock) that must keep the plugin out for a further 100 ms; half of the runs end with the first plugin disconnecting and registering again under the same index and name with no request in between (a third of those: one request in between), followed by creations the fresh instance must be sent; a run in which nothing is logged for 20 s is dumped as it stands (stuck registrations / blocks are an observation); non-trivial = some plugin completed registration with a non-empty snapshot and more than two creation requests"
+	c.Stats.Rule = "synclock: every run in a child process (a runtime that dies inside its sync lock is an observation): R goroutines x N CreateContainer requests inside BlockPluginSync/Unblock on one real Adaptation while P real stubs register at PRNG-chosen points of the creation stream (every 8th run: all at once) and a noise goroutine fires StartContainer outside any block; about 20% of the plugins other than the first FAIL their synchronisation (handler error, or the plugin disconnects during it) and the others must still be registered and blocks obtainable; about 45% of the blocks are released TWICE (explicit Unblock plus a deferred one, the use the doc comment allows), a third of those only after another goroutine has acquired a block; the held-block counter and the log count a block as released at its first Unblock only; half of the runs start with a probe (1: two blocks held, a plugin waiting, the first released twice while the second is between relaying its creation and its bookkeeping; 2: the first block released, THEN a second one taken, a plugin waiting, then the first one's stale second Unblock) that must keep the plugin out for a further 100 ms; a few runs start with probe 3: a block held for 1 s with a registration pending while the plugin request time-out is 300 ms (set from inside the plugin's Configure handler, reset before the release: no request of the unchanged runtime runs under it), after which the registration must complete like any other; half of the runs end with the first plugin disconnecting and registering again under the same index and name with no request in between (a third of those: one request in between), followed by creations the fresh instance must be sent; a run in which nothing is logged for 20 s is dumped as it stands (stuck registrations / blocks are an observation); non-trivial = some plugin completed registration with a non-empty snapshot and more than two creation requests"
 	return nil
 }
